@@ -4,7 +4,7 @@
    and status handling, for every content of the result pipe. *)
 From Coq Require Import List ZArith String Bool Lia.
 From CgreenVerif Require Import CLite Lemmas_CLite Runner.
-From CgreenVerif.Gen Require Import Code.
+From CgreenVerif.Gen Require Import Code_reporter.
 Import ListNotations.
 Local Open Scope string_scope. Local Open Scope list_scope. Local Open Scope Z_scope.
 
